@@ -176,6 +176,10 @@ fn root_model(v: &BigUint, d: usize) -> BigUint {
     if v.is_zero() {
         return BigUint::zero();
     }
+    if d as u64 >= v.bits() {
+        // 1 <= v < 2^d: the root is 1 (also keeps the bisection bounds below from overflowing for huge degrees)
+        return BigUint::one();
+    }
     let mut lo = BigUint::one(); // lo^d <= v
     let mut hi = pow2((v.bits() as usize + d - 1) / d + 1); // hi^d > v
     while &hi - &lo > BigUint::one() {
@@ -1188,7 +1192,7 @@ fn c13(r: &Runner) {
         }
         // every value of P(B) (all bit lengths, MAX and its neighbours) with the degrees at both ends of the range
         for v in pow2_nbhd(bits) {
-            for d in [1usize, 2, 3, 4, 5, 7, 63, 64, 65, bits / 2, bits - 1, bits, bits + 1, bits + 2] {
+            for d in [1usize, 2, 3, 4, 5, 7, 63, 64, 65, bits / 2, bits - 1, bits, bits + 1, bits + 2, (1 << 16) + 1, (1 << 31) - 1, 1 << 31, 1 << 32, (1 << 32) + 1, (1 << 32) + 2, (1 << 32) + bits / 2, (1 << 53) + 1, 1 << 63, usize::MAX - 1, usize::MAX] {
                 if d >= 1 {
                     rootc.push([vu(&v), V::n(d)]);
                 }
